@@ -272,7 +272,7 @@ defvjp(
     anp._astype,
     lambda ans, A, dtype, order="K", casting="unsafe", subok=True, copy=True: (
         (lambda g: anp._astype(g, A.dtype))
-        if onp.issubdtype(anp.metadata(ans)[2], onp.inexact)
+        if not _discrete(ans)
         else (lambda g: vspace(A).zeros())  # cast to an integer / boolean dtype: piecewise constant
     ),
 )
@@ -918,6 +918,12 @@ defvjp(
 )
 
 
+def _discrete(x):
+    # integer- or boolean-valued: the result of a truncating cast, piecewise constant in its input
+    dtype = anp.metadata(x)[2]
+    return onp.issubdtype(dtype, onp.integer) or onp.issubdtype(dtype, onp.bool_)
+
+
 def match_complex(target, x):
     target_iscomplex = anp.iscomplexobj(target)
     x_iscomplex = anp.iscomplexobj(x)
@@ -980,7 +986,7 @@ defvjp_argnum(anp.array_from_args, array_from_args_gradmaker)
 def array_from_scalar_or_array_gradmaker(ans, array_args, array_kwargs, scarray):
     ndmin = array_kwargs.get("ndmin", 0)
     scarray_ndim = anp.ndim(scarray)
-    if not onp.issubdtype(anp.metadata(ans)[2], onp.inexact):
+    if _discrete(ans):
         # cast to an integer / boolean dtype: piecewise constant
         return lambda g: vspace(scarray).zeros()
     if ndmin > scarray_ndim:
